@@ -259,13 +259,22 @@ func guarded(f func() []*wire.MsgTx) (out []*wire.MsgTx, pan string) {
 		}()
 		r.out = f()
 	}()
+	// non-termination guard for a pure function on a small graph: generous (a starved process can be off the CPU for
+	// seconds), but a sort that really loops must not cost the full limit on every later call
+	limit := 30 * time.Second
+	if guardTimeouts >= 3 {
+		limit = 2 * time.Second
+	}
 	select {
 	case r := <-ch:
 		return r.out, r.pan
-	case <-time.After(20 * time.Second):
+	case <-time.After(limit):
+		guardTimeouts++
 		return nil, "timeout"
 	}
 }
+
+var guardTimeouts int
 
 // runSort calls the exported wtxmgr.DependencySort on a fresh map (fresh random iteration order).
 func (b *built) runSort(rng *rand.Rand) outcome {
